@@ -146,26 +146,83 @@ def generating_set_as_weights(prog: Program, rep, RID: str, cname: str) -> int:
     return n
 
 
+def _mentions_ulp(e: ast.AST) -> bool:
+    import re as _re
+    return bool(_re.search(r"\b(ulp|spacing|epsilon|nextafter)\b", norm(e)))
+
+
+def classify_guarded_comparisons(root: ast.AST):
+    """Comparisons of two accumulated quantities.  Returns (guarded, unguarded):
+    guarded   = [(node, exact_compare | None, other_kind, other_node)] for every `if <.is_integer() test>: A else: B` (statement or
+                conditional expression): other_kind in {'ulp', 'isclose', 'exact', None}
+    unguarded = [('exact' | 'isclose', node)] for == / != between sums and isclose calls outside such a guard"""
+    guarded, inside = [], set()
+    for n in ast.walk(root):
+        if isinstance(n, (ast.If, ast.IfExp)) and "is_integer" in norm(n.test) and \
+                not any(isinstance(x, (ast.GeneratorExp, ast.ListComp, ast.SetComp, ast.DictComp, ast.IfExp)) for x in ast.walk(n.test)):
+            body = n.body if isinstance(n.body, list) else [n.body]
+            orelse = n.orelse if isinstance(n.orelse, list) else [n.orelse]
+            exact = next((c for b in body for c in ast.walk(b) if isinstance(c, ast.Compare) and len(c.ops) == 1 and isinstance(c.ops[0], (ast.Eq, ast.NotEq))), None)
+            kind, onode = None, None
+            for b in orelse:
+                for c in ast.walk(b):
+                    if isinstance(c, ast.Call) and dotted(c.func) in ("math.isclose", "isclose"):
+                        kind, onode = "isclose", c
+                    elif isinstance(c, ast.Compare) and len(c.ops) == 1 and isinstance(c.ops[0], (ast.LtE, ast.Lt, ast.GtE, ast.Gt)) and "abs(" in norm(c) and _mentions_ulp(c):
+                        kind, onode = kind or "ulp", onode or c
+                    elif isinstance(c, ast.Compare) and len(c.ops) == 1 and isinstance(c.ops[0], (ast.Eq, ast.NotEq)) and kind is None:
+                        kind, onode = "exact", c
+            guarded.append((n, exact, kind, onode))
+            for x in ast.walk(n):
+                inside.add(id(x))
+    unguarded = []
+    for n in ast.walk(root):
+        if id(n) in inside:
+            continue
+        if isinstance(n, ast.Call) and dotted(n.func) in ("math.isclose", "isclose"):
+            unguarded.append(("isclose", n))
+    return guarded, unguarded
+
+
 def float_sum_exact_compare(prog: Program, rep, RID: str, cname: str, mname: str) -> int:
-    """sum(parts) == total on floats: parts that add up to the total as decimal numbers differ from it in the last binary digits (and
-    a running sum differs from the compensated sum()).  A validation that rejects on inequality has to compare with a tolerance."""
+    """sum(parts) == total: float parts that add up to the total as decimal numbers differ from it in the last binary digits, so `==` rejects
+    them; a *fixed* tolerance (math.isclose) accepts integers that differ by one part in 1e9 and floats that differ by whole units at large
+    magnitudes.  Reviewed form: exact when both sides are integral (`.is_integer()` guard), otherwise within the rounding error of the sum -
+    a tolerance scaled by math.ulp of the values."""
     f = prog.own_method(cname, mname)
     n = 0
+    guarded, unguarded = classify_guarded_comparisons(f.node)
+    guarded = [g for g in guarded if any(isinstance(x, ast.Call) and dotted(x.func) == "sum" for x in ast.walk(f.node))]
+    inside = {id(x) for g in guarded for x in ast.walk(g[0])}
     for node in ast.walk(f.node):
+        if id(node) in inside:
+            continue
         if isinstance(node, ast.Compare) and len(node.ops) == 1 and isinstance(node.ops[0], (ast.Eq, ast.NotEq)):
             sides = [node.left, node.comparators[0]]
             if any(isinstance(s_, ast.Call) and dotted(s_.func) == "sum" for s_ in sides) and not any(isinstance(s_, ast.Constant) for s_ in sides):
                 n += 1
                 rep.violation(RID, f"{cname}.{mname}:exact-sum-compare", f"`{norm(node)}` compares a sum of caller-given numbers exactly: float parts that add up to the total up "
                               "to rounding (0.1 + 0.2 + 0.3 vs 0.6, running sum vs compensated sum()) are rejected with ValueError", f.loc(node))
-    close = [c for c in calls_in(f.node) if dotted(c.func) in ("math.isclose", "isclose") and any(isinstance(a, ast.Call) and dotted(a.func) == "sum" for a in c.args)]
-    for c in close:
+    for kind, c in unguarded:
+        if any(isinstance(a, ast.Call) and dotted(a.func) == "sum" for a in c.args) or "sum" in norm(c):
+            n += 1
+            rep.violation(RID, f"{cname}.{mname}:sum-compare", f"`{norm(c)[:80]}` is the only comparison of the sum with the total: a fixed tolerance accepts integer parts that "
+                          "differ from the total by one part in 1e9 (10**9 + 10**9 for the total 2 * 10**9 + 1) - the documented ValueError is not raised and a set that cannot "
+                          "respect the partition is returned", f.loc(c))
+    for node, exact, kind, onode in guarded:
         n += 1
-        tols = [k.value.value for k in c.keywords if isinstance(k.value, ast.Constant) and isinstance(k.value.value, (int, float))]
-        if tols and all(0 <= t <= 1e-6 for t in tols):
-            rep.ok(RID, f"{cname}.{mname}:sum-compare", f"sums are compared with a tolerance: `{norm(c)[:80]}`", f.loc(c))
+        key = f"{cname}.{mname}:sum-compare"
+        if exact is None:
+            raise AnalysisError(f"{cname}.{mname}: the integral branch of `{norm(node.test)[:60]}` does not compare exactly")
+        if kind == "ulp":
+            rep.ok(RID, key, f"integral sums are compared exactly, others within the rounding error of the sum (`{norm(onode)[:70]}`)", f.loc(node))
+        elif kind == "isclose":
+            rep.violation(RID, key, f"non-integral sums are compared by `{norm(onode)[:70]}`: a fixed relative tolerance accepts parts that differ from the total by whole units at "
+                          "large magnitudes (3000000000.5 + 3000000000.5 for the total 6000000003.0)", f.loc(onode))
+        elif kind == "exact":
+            rep.violation(RID, key, f"non-integral sums are compared exactly as well (`{norm(onode)[:60]}`): 0.1 + 0.2 + 0.3 is rejected for the total 0.6", f.loc(onode))
         else:
-            rep.violation(RID, f"{cname}.{mname}:sum-compare", f"`{norm(c)[:80]}` uses a tolerance above 1e-6 (or the default relative one only)", f.loc(c))
+            raise AnalysisError(f"{cname}.{mname}: cannot classify the non-integral branch of `{norm(node.test)[:60]}`")
     if n == 0:
         raise AnalysisError(f"{cname}.{mname}: no comparison of a sum with the total found")
     return n
@@ -291,9 +348,15 @@ def subgraph_windows_guarded(prog: Program, rep, RID: str) -> int:
 _CONVERTERS = {"float", "int", "round", "math.ceil", "math.floor", "Fraction", "fractions.Fraction"}
 
 
+# dictionaries that hold the caller's scalars as they came (kFlowDecompCycles passes the flow values as repetition bounds)
+CALLER_SCALAR_DICTS = ("self.edge_upper_bounds",)
+
+
 def _is_caller_scalar_read(n: ast.AST, extra_names=()) -> bool:
     if isinstance(n, ast.Subscript) and isinstance(n.ctx, ast.Load):
         s = norm(n.slice)
+        if norm(n.value) in CALLER_SCALAR_DICTS:
+            return True
         return "flow_attr" in s or s in ("upperbound_attr", "lowerbound_attr")
     if isinstance(n, ast.Call) and isinstance(n.func, ast.Attribute) and n.func.attr == "get" and n.args and "flow_attr" in norm(n.args[0]):
         return True
